@@ -34,7 +34,7 @@ Lemma native_ok_dyn b fctx i m s t fe it les content :
 Proof. unfold native_block_ok. cbn [raw_header]. rewrite ext_dyn_fresh. reflexivity. Qed.
 
 Lemma expand_block1_dyn b fctx i m0 s t fe it les content n :
-  afind t (s_blocks s) = Some n ->
+  afind_last t (s_blocks s) = Some n ->
   expand_block1 (mkEB b fctx i m0 [] []) s false (DDynamic t fe it les content) =
   match decode_spec (mkEB b fctx i m0 [] []) n t fe it les with
   | SpecErr u => ([], true, u)
@@ -75,7 +75,7 @@ Lemma is_null_unmarked v :
 Proof. intro H. unfold is_null at 1. rewrite (unmark_unmarked _ H). reflexivity. Qed.
 
 Lemma unknown_item s b fctx i m0 t fe it les content n v ds ls :
-  afind t (s_blocks s) = Some n ->
+  afind_last t (s_blocks s) = Some n ->
   (lenZ les =? n) = true ->
   value fctx fe = (v, ds) ->
   has_errors ds = false -> has_unsupported ds = false ->
@@ -110,7 +110,7 @@ Proof.
 Qed.
 
 Lemma known_item s b fctx i m0 t fe it les content n v ds (lbls : val * val -> list (list Z)) :
-  afind t (s_blocks s) = Some n ->
+  afind_last t (s_blocks s) = Some n ->
   (lenZ les =? n) = true ->
   value fctx fe = (v, ds) ->
   has_errors ds = false -> has_unsupported ds = false ->
@@ -143,7 +143,7 @@ Qed.
    type carrying the for_each marks, and the bodies of its blocks are unknown again. *)
 Theorem unknown_for_each_single_unknown_block :
   forall s pre post fctx i m0 t fe it les content n v ds ls,
-    afind t (s_blocks s) = Some n ->
+    afind_last t (s_blocks s) = Some n ->
     (lenZ les =? n) = true ->
     value fctx fe = (v, ds) ->
     has_errors ds = false -> has_unsupported ds = false ->
@@ -180,7 +180,7 @@ Qed.
 (* ---- empty for_each --------------------------------------------------------------------- *)
 Theorem empty_for_each_no_blocks :
   forall s b fctx i m0 t fe it les content n v ds,
-    afind t (s_blocks s) = Some n ->
+    afind_last t (s_blocks s) = Some n ->
     (lenZ les =? n) = true ->
     value fctx fe = (v, ds) ->
     has_errors ds = false -> has_unsupported ds = false ->
@@ -203,7 +203,7 @@ Qed.
    iterator bound to that element's key and value. *)
 Theorem iteration_order :
   forall s b fctx i m0 t fe it les content n v ds,
-    afind t (s_blocks s) = Some n ->
+    afind_last t (s_blocks s) = Some n ->
     (lenZ les =? n) = true ->
     value fctx fe = (v, ds) ->
     has_errors ds = false -> has_unsupported ds = false ->
@@ -503,7 +503,7 @@ Qed.
    ask them of the once-unmarked value.  A literal is enough to produce one. *)
 Example known_for_each_needs_single_mark_blocks :
   exists s b fctx i m0 t fe it les content n v ds,
-    afind t (s_blocks s) = Some n /\ (lenZ les =? n) = true /\ value fctx fe = (v, ds)
+    afind_last t (s_blocks s) = Some n /\ (lenZ les =? n) = true /\ value fctx fe = (v, ds)
     /\ has_errors ds = false /\ has_unsupported ds = false
     /\ is_known v = true /\ is_null v = false /\ can_iterate (fst (unmark v)) = true
     /\ elements (fst (unmark v)) = []
@@ -516,7 +516,7 @@ Proof.
 Qed.
 Example known_for_each_needs_single_mark_err :
   exists s b fctx i m0 t fe it les content n v ds,
-    afind t (s_blocks s) = Some n /\ (lenZ les =? n) = true /\ value fctx fe = (v, ds)
+    afind_last t (s_blocks s) = Some n /\ (lenZ les =? n) = true /\ value fctx fe = (v, ds)
     /\ has_errors ds = false /\ has_unsupported ds = false
     /\ is_known v = true /\ is_null v = false /\ can_iterate (fst (unmark v)) = true
     /\ elements (fst (unmark v)) = []
